@@ -35,6 +35,9 @@ func generate(prop string, seed uint64, i int) *Scenario {
 	case "C20":
 		return genWrap(rs, faulty)
 	}
+	if prop == "C05" && i%16 == 5 {
+		return genPlain2(rs, faulty) // a source that hands out values of the plain config type
+	}
 	if prop == "C09" && i%16 == 7 {
 		return genPlain(rs, faulty) // the same options with a config type that has no Verify method
 	}
